@@ -45,7 +45,7 @@ META['C01'] = dict(
 META['C02'] = dict(
   text=("Kernel-checked for all inputs: GetAt never panics (getAt_no_panic), a page past the cursors is an error (past_end_is_error), applyPage adds next exactly on all pages but the last and previous on all but the first "
         "(next_prev_offered[_fresh]), an index past the page count is the browse error. Completeness of the row grouping is NOT proved: joinSink drops an empty row at a page start and accepts pages the final check rejects — three "
-        "kernel-evaluated negation witnesses, two open known findings. Tie + oracle: the render suite reconstructs the rows from the real pages of every index and checks static parts, next/prev per page and past-the-end."),
+        "kernel-evaluated negation witnesses, two open known findings. Tie + oracle: the render suite reconstructs the rows from the real pages of every index and checks static parts, next/prev per page and past-the-end; the engine suite walks paginated nodes through the VM (MNEXT/MPREV handlers) and checks that the previous entry is offered on every later page."),
   note=_ENG_NOTE + "pages_partition (complete, once, in order) is left as a documented gap: it is false on the current tree.")
 META['C03'] = dict(
   text=("Kernel-checked for all programs/inputs (Vise/Props/C03.lean): an INCMP that does not match does not move; the first matching INCMP (selector = input, or wildcard while nothing matched) is exactly the move to its target; "
@@ -74,7 +74,7 @@ META['C07'] = dict(
 META['C08'] = dict(
   text=("Kernel-checked for ALL programs (also malformed), inputs, fuel: Vm.Run keeps the cache invariant of C09 — accounting matches contents, one scope per symbol, limits (run_keeps_cache_valid, via a relational Hoare logic over every "
         "instruction handler); every move keeps one cache scope per navigation level (applyTarget_keeps_lockstep); moves never panic within 128 levels and no self-move (applyTarget_no_panic); decoders never panic (C15). Negation witnesses for the open "
-        "findings: Down panics at level 129 / same node, CROAK breaks the lockstep. Oracle: recover() around Exec/Flush/Finish + invariants recomputed from exported fields on every request of wf=1 applications."),
+        "findings: Down panics at level 129 / same node, CROAK breaks the lockstep. Oracle: recover() around Exec/Flush/Finish + invariants recomputed from exported fields on every request of wf=1 applications; the cache suite's accounting oracles run as well."),
   note=_ENG_NOTE + "Four open findings (duplicate-selector panic, code lost after a failed request, maxlevel, CROAK scope) are replayed every run; engine-level (Exec/Flush/reset) preservation of the invariants is by correspondence + oracle, not yet by theorem.")
 META['C17'] = dict(
   text=("Kernel-checked: a format-refused input makes Exec return its error with the engine EXACTLY as it was (exec_format_refused_no_effect: state, flags, cache, code, page, logs, bookkeeping), for every engine state, with or without first function; "
@@ -84,11 +84,12 @@ META['C17'] = dict(
 META['C18'] = dict(
   text=("Kernel-checked: unknown code leaves the language unchanged, valid code selects its ISO-639-3 form, empty result resets; the language survives snapshot/restore; every code lookup, function lookup and external call is logged with exactly the context language "
         "and nothing else enters the logs (refresh_uses_lang via the OnlyFlagsLang frame); a handler returning LANG + valid code leaves that language in the state (refresh_selects_language); Exec and Flush hand the session language to VM and renderer. "
-        "Tie: the harness resource records the context language of every GetTemplate/GetCode/FuncFor/handler call and the logs are compared entry by entry."),
+        "Tie: the harness resource records the context language of every GetTemplate/GetCode/FuncFor/handler call and the logs are compared entry by entry; language-scoped store reads (translation preferred, default as fallback) run through the db suite on all backends."),
   note=_ENG_NOTE)
 META['C20'] = dict(
   text=("Kernel-checked: empty code with DIRTY => stop, exiting, exit = last value (graceful_end_detected); code ending outside input handling sets TERMINATE; a fresh engine on a code-less stored session starts with MOVE <root> (restart_injects_entry); "
-        "TERMINATE blocks every later run (from C06, for all programs). Unwinding at Flush (path [], one scope, client flags kept) is decided by correspondence and the direct oracle on stored ExecPath/Flags/Cache, not yet by theorem."),
+        "TERMINATE blocks every later run (from C06, for all programs); unwinding at a graceful end from ANY depth: reset succeeds and leaves the empty path, exactly the base cache scope, TERMINATE cleared and every flag other than TERMINATE/DIRTY (all client flags) unchanged "
+        "(engReset_unwinds, by induction over the depth, under one-scope-per-level). That Flush calls it exactly at a graceful end is by correspondence and the direct oracle on stored ExecPath/Flags/Cache."),
   note=_ENG_NOTE + "With WithFirst, blocked requests deliver the stale exit value (documented, outside the checked domain).")
 
 
